@@ -31,6 +31,7 @@ pub fn run_case(case: &Sx) -> Sx {
                     "contains" => sbool(g.contains(&dec_perm(&v[1]))),
                     "orbit" => { let mut o = g.orbit(Slot::numeric(v[1].as_num() as u32)); o.sort(); set_sx(o.into_iter()) }
                     "addset" => sbool(g.add_set(v[1..].iter().map(dec_perm).collect())),
+                    "add" => sbool(g.add(dec_perm(&v[1]))),
                     x => panic!("harness: unknown op {}", x),
                 },
                 _ => panic!("harness: bad op"),
@@ -113,6 +114,7 @@ pub fn gen(a: &Args) -> Vec<String> {
     for c in 0..(a.count.max(200)) {
         let mut rng = Rng::new(a.seed, 500_000 + c);
         let n = 4 + rng.below(3) as usize;
+        let n = if c % 3 == 0 { n.max(5) } else { n };   // the stabiliser chain has more than one non-trivial layer from five slots up
         let special = |rng: &mut Rng, n: usize| -> Vec<u64> {
             let mut v: Vec<u64> = (0..n as u64).collect();
             match rng.below(4) {
@@ -127,7 +129,8 @@ pub fn gen(a: &Args) -> Vec<String> {
         let mut v = vec![sym("c10"), checks_flag(), num(n as u64), lst(vec![sym("gens"), psx(&g0)]), sym("count")];
         for _ in 0..rng.range(2, 4) {
             let p = special(&mut rng, n);
-            v.push(lst(vec![sym("addset"), psx(&p)]));
+            // Group::add (the single-permutation entry used when a class is united with itself) or add_set
+            v.push(lst(vec![sym(if rng.chance(1, 2) { "add" } else { "addset" }), psx(&p)]));
             v.push(sym("count")); v.push(sym("all"));
             for _ in 0..6 { v.push(lst(vec![sym("contains"), psx(&rand_perm(&mut rng, n))])); }
             v.push(lst(vec![sym("addset"), psx(&p)]));
